@@ -103,6 +103,7 @@ def cases_c10(tier, seed):
         sarkka_bilmes_fold_precondition="explicit-fold oracle applies to models with at least one lag; lag-free transitions are checked against the plain product over time (documented degenerate behaviour)",
         nontrivial_rule="duration >= 2 and (some state size >= 2 | some lag present)",
         random_continuation=0 if quick else 1500,
+        exhaustive_subspaces="the whole stated grid is enumerated (the thorough tier adds a seeded random continuation on top)",
     )
     return _seeded(cases, seed), bounds, True
 
@@ -323,8 +324,9 @@ def cases_c08(tier, seed):
         einsum_equations="<= %d operands x %d symbols, every multiset of operand symbol-sets (every tuple for <= 2 operands) x every output subset (4 operands over 4 symbols: empty, full and 6 seeded subsets); symbol order seeded; backends numpy, numpy_log, numpy_map" % (kmax, len(syms)),
         counts=dict(flat=nflat, flat_param=npar, nested=ntemp, random=nrand, einsum=neq),
         nontrivial_rule="expr: >= 2 operands and some mentioned variable of size >= 2; einsum: some symbol of size >= 2",
+        exhaustive_subspaces="flat incidence patterns over 3 variables x reduced subsets, and einsum operand-set patterns x output subsets, are complete up to symbol order; sizes and data are seeded; 4-variable patterns, capped templates, parameter variants and random trees are seeded samples",
     )
-    return _seeded(cases, seed), bounds, True
+    return _seeded(cases, seed), bounds, False
 
 
 # ---------------------------------------------------------------------------------------------------
@@ -422,8 +424,9 @@ def cases_c09(tier, seed):
         declines="ValueError / NotImplementedError = declined (never compared); a returned value is always compared with the exact unrolled oracle",
         parameter_operand="sampled: one factor is tensor (prod|other op) Variable('w'), evaluated at w in {0.7, 1.9}",
         nontrivial_rule=">= 2 factors, an eliminated plate of size >= 2 and a variable living in a plate",
+        exhaustive_subspaces="the small graphs (up to renaming) x every eliminate subset x every admissible split are complete; sizes / data are seeded; larger graphs are seeded samples",
     )
-    return _seeded(cases, seed), bounds, True
+    return _seeded(cases, seed), bounds, False
 
 
 # ---------------------------------------------------------------------------------------------------
@@ -630,8 +633,9 @@ def cases_c11(tier, seed):
         leaf_identity="a leaf is checked only if it is still a factor of the term handed to the tape (lazy / optimizer evaluate substitutions of tensors eagerly; then counted as declined 'leaf-not-in-term')",
         counts=ncount,
         nontrivial_rule=">= 2 occurrences and some leaf axis of size >= 2",
+        exhaustive_subspaces="flat products: every multiset of variable sets over 3 variables x every reduced subset; other templates, transforms and sizes are seeded samples",
     )
-    return _seeded(cases, seed), bounds, True
+    return _seeded(cases, seed), bounds, False
 
 
 def _adj_reduces_ok(case):
